@@ -490,7 +490,7 @@ theorem specTail_isSome (R : Spec.R) (A : Bool) (ui up : Spec.Ev → Option Spec
 /-- the tables are complete at `s` -/
 structure ClosedAt (env : VEnv) (s : NodeId) (n : Node) : Prop where
   ref : (n.ref != "") = true → ((env.info? s).bind (·.resolvedRef)).isSome = true
-  dyn : (n.dynamicRef != "") = true → ((env.info? s).bind (·.resolvedDynamicRef)).isSome = true
+  dyn : env.draft = .d2020 → (n.dynamicRef != "") = true → ((env.info? s).bind (·.resolvedDynamicRef)).isSome = true
 
 /-- one step of the Spec is defined if the recursive applications are: on the in-place edges with the same instance,
     on the instance-descending edges with every instance of smaller depth -/
@@ -513,10 +513,16 @@ theorem evalStep_isSome (env : VEnv) (srec : Spec.Rec) (scope0 : List NodeId) (s
     simp only [hn', hd7, if_true, Option.isSome_map]
     exact h1
   · have hnd7 : ((specEnvOf env).draft == .d7 && n.ref != "") = false := by simpa using hd7
-    have h2 : (Spec.kwDynamicRef (specEnvOf env) (srec (scope0 ++ [s])) (scope0 ++ [s]) s n j).isSome = true := by
+    have h2 : (Spec.kwDynamicRef (specEnvOf env) (srec (scope0 ++ [s])) (scope0 ++ [s]) s
+        (Spec.vocab (specEnvOf env).draft n) j).isSome = true := by
       apply kwDynamicRef_isSome
-      intro hp
-      obtain ⟨i, hi⟩ := isSome_eq_some (hcl.dyn hp)
+      intro hp0
+      have hp20 : env.draft = .d2020 ∧ (n.dynamicRef != "") = true := by
+        cases hdd : (specEnvOf env).draft <;> rw [hdd] at hp0
+        · simp [Spec.vocab] at hp0
+        · exact ⟨hdd, hp0⟩
+      obtain ⟨h20, hp⟩ := hp20
+      obtain ⟨i, hi⟩ := isSome_eq_some (hcl.dyn h20 hp)
       refine ⟨i, hi, hin i (mem_edges_dyn env s n hn ?_), ?_⟩
       · unfold dynEdges
         rw [if_pos hp, hi]
@@ -613,10 +619,11 @@ theorem closed_spec (env : VEnv) (h : closed env = true) (s : NodeId) (n : Node)
     · simp only [bne, hr, Bool.not_true] at hp
       cases hp
     · exact hr
-  · intro hp
-    rcases hd with hd | hd
+  · intro h20 hp
+    rcases hd with (hd | hd) | hd
     · simp only [bne, hd, Bool.not_true] at hp
       cases hp
+    · rw [h20] at hd; cases hd
     · exact hd
 
 /-! ### the Spec is defined -/
